@@ -222,6 +222,7 @@ class UnifiedRTFEncoder(EncodingStrategy):
         for page in pages:
             rows = page.data.height
             page.data = processed_df.slice(current_idx, rows)
+            page.start_row = current_idx
             current_idx += rows
 
         # 2. Re-implementation of group_by logic
